@@ -140,6 +140,9 @@ func vestingOps() []OpDef {
 			from := p.Owner
 			if r.Chance(0.6) && len(p.Dests) > 0 {
 				from = p.Dests[r.Intn(len(p.Dests))]
+				if from.Scheme == nil { // a contract wallet named as destination: nobody can sign for it
+					from = p.Owner
+				}
 			}
 			mut := ""
 			if r.Chance(h.Vars["hostile"].(float64) * 0.3) {
